@@ -903,6 +903,9 @@ def main():
             cinit = ' = {{%s}}' % ','.join(map(str, bs))
         elif re.fullmatch(r'-?\d+', init):
             cinit = ' = %s' % init
+        elif re.fullmatch(r'\[\s*(i\d+\s+-?\d+\s*,?\s*)+\]', init):
+            # constant array of integers, e.g. [i32 0, i32 1, i32 2]
+            cinit = ' = {{%s}}' % ','.join(re.findall(r'i\d+\s+(-?\d+)', init))
         elif init in ('zeroinitializer', ''):
             cinit = ''
         else:
